@@ -22,13 +22,13 @@ from .model import TreeModel
 from .snapshot import ustr
 
 MUTATING = {"mk_group", "mk_object", "add_data", "add_comment", "add_file", "set_values", "rename", "set_flag",
-            "set_meta", "move", "copy", "rm_ws", "rm_parent", "pg_add", "pg_rm", "pg_del", "mk_dup", "pg_new", "move_data", "copy_extent", "type_edit", "hole_attr"}
+            "set_meta", "move", "copy", "rm_ws", "rm_parent", "pg_add", "pg_rm", "pg_del", "mk_dup", "pg_new", "move_data", "copy_extent", "type_edit", "hole_attr", "rm_all", "reattach"}
 SCHEDULE = {"gc", "drop", "close_reopen", "reopen_same", "save_as", "list", "lookup", "observe", "tidy"}
 
 BASE_WEIGHTS = {
     "mk_group": 6, "mk_object": 10, "add_data": 12, "add_comment": 2, "add_file": 1, "set_values": 5,
     "rename": 4, "set_flag": 3, "set_meta": 3, "move": 5, "copy": 6, "rm_ws": 5, "rm_parent": 4,
-    "pg_add": 4, "pg_rm": 2, "pg_del": 1, "pg_new": 2, "mk_dup": 0, "move_data": 3, "copy_extent": 2, "type_edit": 2, "hole_attr": 0,
+    "pg_add": 4, "pg_rm": 2, "pg_del": 1, "pg_new": 2, "mk_dup": 0, "move_data": 3, "copy_extent": 2, "type_edit": 2, "hole_attr": 0, "rm_all": 2, "reattach": 2,
     "gc": 5, "drop": 3, "close_reopen": 4, "reopen_same": 2, "save_as": 1, "list": 3, "lookup": 3, "observe": 2,
 }
 PROFILES = {
@@ -1233,6 +1233,68 @@ class World:
         else:
             rec["flags"][op["attr"]] = int(op["val"])
         return "ok"
+
+    def gen_rm_all(self, rng, h):
+        model = self.h[h].model
+        t = self.target(rng, h, "container", lambda r: len(r["children"]) >= 2 and not r.get("concat_group"))
+        return None if t is None else {"t": t}
+
+    def do_rm_all(self, op):
+        """The 'detach all' idiom: parent.remove_children(parent.children) -- the live list itself is passed."""
+        h = op["h"]
+        model = self.h[h].model
+        uid = self.resolve(h, op["t"], lambda r: len(r["children"]) >= 2 and not r.get("concat_group"))
+        if uid is None:
+            return "skipped"
+        kids = list(model.recs[uid]["children"])
+        parent = self.ent(h, uid) if uid != model.root else self.h[h].ws.root
+        self.touch(h, *kids)
+        _, outcome = self.call(lambda: parent.remove_children(parent.children), what="rm_all")
+        del parent
+        if outcome != "ok":
+            return outcome
+        gone = []
+        for kid in kids:
+            gone += self._model_remove(h, kid, "parent")
+        if self.tidy:
+            for g in gone:
+                self.slots.pop((h, g), None)
+            self.sim.collect("tidy")
+            ws = self.h[h].ws
+            for name in ("groups", "objects", "data", "types"):
+                getattr(ws, name)
+        self.sim.probe("rm_all")
+        return "ok"
+
+    def gen_reattach(self, rng, h):
+        t = self.target(rng, h, "entity", lambda r: not r.get("concat") and r["kind"] != "data" or (not r.get("concat") and not any(True for _ in ())))
+        return None if t is None else {"t": t}
+
+    def do_reattach(self, op):
+        """Detach a child from its parent and attach it to the same parent again (nothing changes for the user)."""
+        h = op["h"]
+        model = self.h[h].model
+        uid = self.resolve(h, op["t"], lambda r: not r.get("concat"))
+        if uid is None:
+            return "skipped"
+        rec = model.recs[uid]
+        prec = model.recs[rec["parent"]]
+        if prec.get("concat_group") or prec.get("concat"):
+            return "skipped"
+        if rec["kind"] == "data" and any(uid in pg["props"] for pg in prec.get("pgs", {}).values()):
+            return "skipped"     # detaching scrubs the property groups: not a no-op for the user
+        self.touch(h, uid)
+        ent = self.ent(h, uid)
+        parent = self.ent(h, rec["parent"]) if rec["parent"] != model.root else self.h[h].ws.root
+
+        def both():
+            parent.remove_children([ent])
+            ent.parent = parent
+
+        _, outcome = self.call(both, what="reattach")
+        del ent, parent
+        self.sim.probe("reattach")
+        return outcome
 
     # ---- identifier reuse (C06) --------------------------------------------------------------
     def gen_mk_dup(self, rng, h):
